@@ -605,6 +605,26 @@ func globalWriteFacts(repo string) []map[string]interface{} {
 						if r != "" && globals[r] && !local[r] {
 							out = append(out, map[string]interface{}{"pkg": dir, "func": fd.Name.Name, "var": r, "stmt": src(fset, x)})
 						}
+					case *ast.SliceExpr:
+						// a slice of a package-level array / slice shares its backing store: what is appended or stored through it is a write to the variable
+						r := root(x.X)
+						if r != "" && globals[r] && !local[r] {
+							out = append(out, map[string]interface{}{"pkg": dir, "func": fd.Name.Name, "var": r, "stmt": src(fset, x)})
+						}
+					case *ast.UnaryExpr:
+						if x.Op == token.AND {
+							r := root(x.X)
+							if r != "" && globals[r] && !local[r] {
+								out = append(out, map[string]interface{}{"pkg": dir, "func": fd.Name.Name, "var": r, "stmt": src(fset, x)})
+							}
+						}
+					case *ast.CallExpr:
+						if id, ok := x.Fun.(*ast.Ident); ok && (id.Name == "append" || id.Name == "copy") && len(x.Args) > 0 {
+							r := root(x.Args[0])
+							if r != "" && globals[r] && !local[r] {
+								out = append(out, map[string]interface{}{"pkg": dir, "func": fd.Name.Name, "var": r, "stmt": src(fset, x)})
+							}
+						}
 					case *ast.DeclStmt:
 						if gd, ok := x.Decl.(*ast.GenDecl); ok {
 							for _, sp := range gd.Specs {
